@@ -210,6 +210,10 @@ def _subject(pat, s):
 def m_fullmatch(interp, pat, s, *a):
     if a:
         raise Unsupported("fullmatch with pos/endpos")
+    from .text import FmtStr
+    if isinstance(s, FmtStr):
+        from .tokmatch import m_match_tokens
+        return m_match_tokens(interp, pat, s, full=True)
     s = _subject(pat, s)
     if interp.ctx.branch(z3.InRe(s.t, language(pat))):
         return SymMatch(s, SInt(z3.Length(s.t)))
@@ -219,6 +223,10 @@ def m_fullmatch(interp, pat, s, *a):
 def m_match(interp, pat, s, *a):
     if a:
         raise Unsupported("match with pos/endpos")
+    from .text import FmtStr
+    if isinstance(s, FmtStr):
+        from .tokmatch import m_match_tokens
+        return m_match_tokens(interp, pat, s, full=False)
     s = _subject(pat, s)
     t = translate(pat)
     ctx = interp.ctx
@@ -241,9 +249,3 @@ def m_match(interp, pat, s, *a):
     return None
 
 
-class LexGroup(object):
-    pass
-
-
-class FracFloat(object):
-    pass
